@@ -7,7 +7,7 @@ status; life-cycle changes (inactive / active / reload to a new revision as
 FSM.load does); run requests, dispatch ticks and replies in every order.  Every
 byte written to every worker connection is decoded and judged.
 '''
-from . import common, aegen, schedcheck
+from . import common, aegen, schedcheck, c11worker
 
 LEVEL = 'model_checking'
 PID = 'C11'
@@ -35,7 +35,12 @@ def run(ctx):
     states, transitions, selfchecked, per = schedcheck.run(ctx, PID, jobs(ctx, {PID}))
     for p in per[:6]:
         ctx.sample(p)
+    worker_cases = c11worker.run(ctx)
     cov = {
+        'worker_tier_cases': worker_cases,
+        'worker_tier': 'real pl.worker.cluster.execute against the real farm over an in-memory socket: worker revision '
+                       '{current, stale, None} x queue {nothing, one, two, regression} x during the run {nothing, pipeline '
+                       'goes inactive, new revision}; every case executed',
         'states': states, 'transitions': transitions,
         'traces_validated_against_impl': selfchecked,
         'explanation': 'exploration on the implementation; traces_validated = histories re-executed from scratch '
